@@ -455,7 +455,8 @@ func (o *baseObject) setProto(proto *Object, throw bool) bool {
 		return true
 	}
 	if !o.extensible {
-		o.val.runtime.typeErrorResult(throw, "%s is not extensible", o.val)
+		// the message must not run user code (ToString of the object)
+		o.val.runtime.typeErrorResult(throw, "[object %s] is not extensible", o.val.self.className())
 		return false
 	}
 	for p := proto; p != nil; p = p.self.proto() {
